@@ -119,6 +119,12 @@ pub fn judge(seq: &[usize], prior: usize, ak: usize, all_set: &std::collections:
             let sig = if rs.len() > exp.len() { "reports-past-the-first-disallowed-version" } else if rs.len() < exp.len() { "drops-allowed-leading-elements" } else { "element-differs-from-all-allowed-run" };
             issues.push(issue(format!("{}/{}", which, sig), format!("allowed {:?}, {} {}: expected {} leading elements {:?}, got {} {:?}", s, which, ci, exp.len(), kinds(exp), rs.len(), kinds(&rs))));
         }
+        // absolute law (the all-allowing run is the same library and shares its defects): the list is a decomposition
+        // of the call's bytes that stops silently only in front of a version outside S
+        for mut is in super::c02::decomposition_issues(call, &rs, &s) {
+            is.sig = format!("{}/decomposition/{}", which, is.sig);
+            issues.push(is);
+        }
         // caches: as if only the bytes of that prefix had been fed to an all-allowing parser
         pp.parse_bytes(&call[..o.min(call.len())]);
         if snap(&pp) != snap(&ps) {
@@ -212,7 +218,7 @@ pub fn run(tier: &str) -> i32 {
         prop: "C12".into(),
         tier: tier.into(),
         level: "model_checking",
-        rule: "every buffer = sequence of 1..=3 (thorough 4) packets over a 29-packet menu (three one-byte tails, 17 self-delimiting packets, version-6, version-0, V9 truncated inside a template, V9 data for an absent id, five well-formed packets whose version field is 0x0109 / 0x0105 / 0x010a / 0x0107 / 0x0900) x 9 prior histories (six delivered under the configuration, two of them with unparsable versions and garbage; three delivered before the configuration is set, so that the set is narrowed over caches that already hold templates - these with buffers one packet shorter) x all 64 allowed sets (16 subsets of {5,7,9,10} x extras {none,{6},{0,11,65535}, 24 aliasing numbers}), the buffer delivered twice; EVERY call of the history is judged; oracle relative to a parser allowing all 65 536 versions from the same state: result(S) = maximal prefix of result(ALL) whose elements' versions are in S, caches(S) = caches of an ALL-parser fed only that prefix's bytes, unknown allowed versions are UnknownVersion errors, and allowed_versions itself is unchanged by every call. Distinct by hash of (result, allowed set)".into(),
+        rule: "every buffer = sequence of 1..=3 (thorough 4) packets over a 29-packet menu (three one-byte tails, 17 self-delimiting packets, version-6, version-0, V9 truncated inside a template, V9 data for an absent id, five well-formed packets whose version field is 0x0109 / 0x0105 / 0x010a / 0x0107 / 0x0900) x 9 prior histories (six delivered under the configuration, two of them with unparsable versions and garbage; three delivered before the configuration is set, so that the set is narrowed over caches that already hold templates - these with buffers one packet shorter) x all 64 allowed sets (16 subsets of {5,7,9,10} x extras {none,{6},{0,11,65535}, 24 aliasing numbers}), the buffer delivered twice; EVERY call of the history is judged; oracle relative to a parser allowing all 65 536 versions from the same state: result(S) = maximal prefix of result(ALL) whose elements' versions are in S, caches(S) = caches of an ALL-parser fed only that prefix's bytes, unknown allowed versions are UnknownVersion errors, allowed_versions itself is unchanged by every call, and - independently of the all-allowing run - every result is a decomposition of its buffer that ends silently only in front of a version outside S. Distinct by hash of (result, allowed set)".into(),
         bounds: json!({"buffer_len": if thorough {4} else {3}, "prior_histories": 9, "calls_judged_per_case": "2..=6", "allowed_sets": 64}),
         assumptions: vec![],
         trusted_base: vec!["c12::judge".into()],
